@@ -459,8 +459,10 @@ def rule_loop(ctx):
     ctx.ob("handle_connect_error re-enters the reconnect loop", len(re_n) == 1, f"{len(re_n)} re-entry sites", hce.loc())
     if re_n:
         n0 = re_n[0][0]
-        ctx.ob("every failed or lost connection leads back to transport_check (all non-raising paths)",
-               not gh.path_exists(gh.entry, gh.exit, avoid=lambda x: x is n0, edge_ok=CFG._no_exc(None)),
+        # ... unless the path completes the result of start() itself (the component is finished: main failed)
+        fin_n = {n for n in gh.stmt_nodes() for c in node_calls(n) if call_name(c) in ("txaio.reject", "txaio.resolve") and c.args and is_self_attr(c.args[0], "_done_f")}
+        ctx.ob("every failed or lost connection leads back to transport_check (all non-raising paths that do not complete start() themselves)",
+               not gh.path_exists(gh.entry, gh.exit, avoid=lambda x: x is n0 or x in fin_n, edge_ok=CFG._no_exc(None)),
                "a path through handle_connect_error ends without scheduling transport_check: no new attempt although transports have attempts left",
                hce.loc(n0.ast))
         # cell-wise: classifier absent / says fatal / says not fatal, for each kind of error value
@@ -485,9 +487,10 @@ def rule_loop(ctx):
                             asked.append(a_[0])
                             return classifier
                         return Sym(f"<{f_}>")
-                    env = {cand_name: cand_env(candidate), "self": Sym("component"), "self._is_fatal": (Sym("classifier") if classifier is not None else None),
-                           hce.params()[0]: Sym("failure", value=err_value), "transport_check": Sym("transport_check"),
-                           "ApplicationError": Sym("ApplicationError"), "OSError": Sym("OSError")}
+                    env = _ctor_defaults(ctx)
+                    env.update({cand_name: cand_env(candidate), "self": Sym("component"), "self._is_fatal": (Sym("classifier") if classifier is not None else None),
+                                hce.params()[0]: Sym("failure", value=err_value), "transport_check": Sym("transport_check"),
+                                "ApplicationError": Sym("ApplicationError"), "OSError": Sym("OSError")})
                     t = Tiny(env, default_call=default)
                     r = t.run([x for x in hce.node.body if not (isinstance(x, ast.Expr) and isinstance(x.value, ast.Constant))])
                     again = [a for f_, a in calls if (f_ == "txaio.call_later" and len(a) >= 2 and a[1] is env["transport_check"]) or f_ == "transport_check"]
@@ -644,6 +647,78 @@ def rule_completion(ctx):
         raise AnalysisError(f"[C14.5-completion-guards] on_leave / on_disconnect outside the modelled subset: {e}")
     ctx.ob(f"a connection finishes successfully only through a normal leave of its session, never merely because the transport went away [{len(histories)} histories]",
            not probs, "; ".join(probs[:2]), od.loc())
+    # "... and with an error when main fails": the history [join, main fails] evaluated over the two closures that decide it -- main's error
+    # continuation in _connect_once and the connect-error handler of the reconnect loop in _start (shared state: the component's attributes).
+    # The overall future (the result of start()) must fail with main's exception and no further attempt may be scheduled; an ordinary failed
+    # connection (control) must schedule the next attempt and leave the overall future alone.
+    start_fn = p.func(f"{COMPONENT}._start")
+    hce = closure(start_fn, "attempt_connect.handle_connect_error")
+    init_fn = p.func(f"{COMPONENT}.__init__")
+    probs = []
+    try:
+        exc_main, exc_other = Sym("ValueError raised by main"), Sym("ConnectionRefusedError")
+        for name, with_main in (("the session joins, main fails", True), ("the connection attempt fails (control)", False)):
+            overall, done = Sym("result of start()"), Sym("per-connection-future")
+            comp = {"self": Sym("component"), "self.log": Sym("log"), "self._done_f": overall, "self._is_fatal": None, "self._stopping": False}
+            for s_ in walk_no_defs(init_fn.node):   # attributes the constructor initialises with None / False
+                if isinstance(s_, ast.Assign) and len(s_.targets) == 1 and is_self_attr(s_.targets[0]) and isinstance(s_.value, ast.Constant) and s_.value.value in (None, False):
+                    comp.setdefault(f"self.{s_.targets[0].attr}", s_.value.value)
+            comp["self._done_f"] = overall
+            events = []
+
+            def oracle(f_, a_, k_=None):
+                if f_ in ("txaio.resolve", "txaio.reject") and a_:
+                    events.append((f_.split(".")[1], a_[0], a_[1] if len(a_) > 1 else None))
+                    return None
+                if f_ == "txaio.call_later":
+                    events.append(("call_later", a_[1] if len(a_) > 1 else None, None))
+                    return None
+                if f_ == "isinstance" or f_.endswith("._is_ssl_error"):
+                    return False
+                if f_ == "txaio.is_called":
+                    return any(e_[1] is a_[0] for e_ in events if e_[0] in ("resolve", "reject"))
+                return Sym(f"<{f_}>")
+            if with_main:
+                failure = Sym("failure of main", value=exc_main)
+                env = dict(comp)
+                env.update({"done": done, "session": Sym("session"), me.params()[0]: failure})
+                t = Tiny(env, default_call=oracle, opaque_globals=True, model_strings=True)
+                r = t.run([x for x in me.node.body if not (isinstance(x, ast.Expr) and isinstance(x.value, ast.Constant))])
+                if r[0] == "raise":
+                    probs.append(f"{name}: main's error continuation raises {r[1]}")
+                    continue
+                rej = [e_ for e_ in events if e_[0] == "reject" and e_[1] is done]
+                if len(rej) != 1:
+                    probs.append(f"{name}: the per-connection future is rejected {len(rej)} time(s) by main's error continuation")
+                    continue
+                fail = rej[0][2]
+                comp = {k_: v_ for k_, v_ in t.env.items() if k_ == "self" or k_.startswith("self.")}
+            else:
+                fail = Sym("failure of the connection attempt", value=exc_other)
+            del events[:]
+            env = dict(comp)
+            env.update({hce.params()[0]: fail, "transport_candidate": [Sym("transport")], "transport_check": Sym("transport_check"), "ApplicationError": Sym("ApplicationError"),
+                        "OSError": Sym("OSError")})
+            t = Tiny(env, default_call=oracle, opaque_globals=True, model_strings=True)
+            r = t.run([x for x in hce.node.body if not (isinstance(x, ast.Expr) and isinstance(x.value, ast.Constant))])
+            if r[0] == "raise":
+                probs.append(f"{name}: the connect-error handler raises {r[1]}")
+                continue
+            fin = [e_ for e_ in events if e_[0] in ("resolve", "reject") and e_[1] is overall]
+            again = [e_ for e_ in events if e_[0] == "call_later"]
+            if with_main:
+                val = fin[0][2] if fin else None
+                is_main = val is fail or val is exc_main or (isinstance(val, Sym) and val.attrs.get("value") is exc_main)
+                if not (len(fin) == 1 and fin[0][0] == "reject" and is_main) or again:
+                    probs.append(f"{name}: the result of start() is {'left pending' if not fin else fin[0][0] + ' with ' + str(val)} and "
+                                 f"{'another connection attempt is scheduled' if again else 'no attempt is scheduled'}; expected: start() fails with main's error, no further attempt "
+                                 f"(as it is, a main that always fails reconnects without bound and without delay: the join has just reset the retry budget)")
+            else:
+                if fin or len(again) != 1:
+                    probs.append(f"{name}: result of start() {'completed' if fin else 'pending'}, {len(again)} attempt(s) scheduled; expected pending and the next attempt scheduled")
+    except AnalysisError as e:
+        raise AnalysisError(f"[C14.5-completion-guards] main_error / handle_connect_error outside the modelled subset: {e}")
+    ctx.ob("the result of start() fails with main's error when main fails (and only a failed connection leads to another attempt) [2 histories]", not probs, "; ".join(probs[:2]), me.loc())
     # main wiring
     reg = [(nd, c) for nd in CFG(cs.node).stmt_nodes() for c in node_calls(nd) if isinstance(c.func, ast.Attribute) and c.func.attr == "on"
            and norm.text(c.func.value) == "session" and c.args and isinstance(c.args[0], ast.Constant)]
@@ -790,6 +865,16 @@ def rule_completion(ctx):
     nmk = [n for n in gs.stmt_nodes() if n.ast in mk]
     ok = len(nmk) == 1 and ("is", "self._done_f", ("c", None), True) in (mfs.at(nmk[0]) or ())
     ctx.ob("a second start() while running does not replace the overall future", ok, "self._done_f re-created although one exists", start.loc())
+
+
+def _ctor_defaults(ctx):
+    """component attributes the constructor initialises with None / False (the state of a component on which nothing special has happened)"""
+    init_fn = ctx.program.func(f"{COMPONENT}.__init__")
+    out = {}
+    for s_ in walk_no_defs(init_fn.node):
+        if isinstance(s_, ast.Assign) and len(s_.targets) == 1 and is_self_attr(s_.targets[0]) and isinstance(s_.value, ast.Constant) and s_.value.value in (None, False):
+            out.setdefault(f"self.{s_.targets[0].attr}", s_.value.value)
+    return out
 
 
 # ------------------------------------------------------------------------------------------
